@@ -567,4 +567,50 @@ B('F1-resolver-first-member-only', ['C07', 'C08'], 'type_blocks.py', 'TypeBlocks
 N('F1-resolver-chain-swapped', ['C07', 'C08'], 'type_blocks.py', 'TypeBlocks._assign_from_iloc_by_blocks',
   'chain((a.dtype for a in assigned_blocks), (b.dtype,))', 'chain((b.dtype,), (a.dtype for a in assigned_blocks))')
 
+# ---------------------------------------------------------------------------------- alignment / set shortcuts (C06)
+B('AL-series-other-not-reindexed', ['C06'], 'series.py', 'Series._ufunc_binary_operator',
+  'other = other.reindex(index, own_index=True, check_equals=False).values', 'other = other.values', 'E.align', 'Series._ufunc_binary_operator')
+B('AL-series-label-self-index', ['C06'], 'series.py', 'Series._ufunc_binary_operator',
+  'index = self._index.union(other._index)\n', 'index_u = self._index.union(other._index)\n                index = self._index\n', 'E.align', 'Series._ufunc_binary_operator')
+B('AL-frame-series-wrong-axis-label', ['C06'], 'frame.py', 'Frame._ufunc_binary_operator',
+  '                return self.__class__(blocks,\n                        index=index,\n                        columns=self._columns,',
+  '                return self.__class__(blocks,\n                        index=self._index,\n                        columns=self._columns,', 'E.align', 'Frame._ufunc_binary_operator')
+B('AL-frame-other-different-union', ['C06'], 'frame.py', 'Frame._ufunc_binary_operator',
+  'other_array = other.reindex(columns, own_index=True).values', 'other_array = other.reindex(other._index.union(self._columns), own_index=True).values', 'E.align', 'Frame._ufunc_binary_operator')
+B('AL-operands-swapped', ['C06'], 'series.py', 'Series._ufunc_binary_operator',
+  '                values=values,\n                other=other,', '                values=other,\n                other=values,', 'E.align', 'Series._ufunc_binary_operator')
+N('AL-rename-union-local', ['C06'], 'series.py', 'Series._ufunc_binary_operator',
+  '                index = self._index.union(other._index)\n                # now need to reindex the Series\n                values = self.reindex(index, own_index=True, check_equals=False).values\n                other = other.reindex(index, own_index=True, check_equals=False).values',
+  '                union = self._index.union(other._index)\n                index = union\n                values = self.reindex(union, own_index=True, check_equals=False).values\n                other = other.reindex(union, own_index=True, check_equals=False).values')
+B('SS-union-returns-array-nonempty', ['C06'], 'util.py', '_ufunc_set_1d',
+  '            if len(array) == 0:\n                return other\n            elif len(other) == 0:\n                return array', '            if len(array) == 0:\n                return other\n            elif len(other) >= 0:\n                return array', 'I.set-shortcuts', '_ufunc_set_1d')
+B('SS-shortcut-without-unique', ['C06'], 'util.py', '_ufunc_set_2d',
+  '    if assume_unique:\n        # can only return arguments', '    if True:\n        # can only return arguments', 'I.set-shortcuts', '_ufunc_set_2d')
+B('SS-difference-equal-returns-array', ['C06'], 'util.py', '_ufunc_set_1d',
+  '            if arrays_are_equal:\n                if is_difference:', '            if arrays_are_equal:\n                if is_intersection and is_difference:', 'I.set-shortcuts', '_ufunc_set_1d')
+B('SS-siblings-diverge', ['C06'], 'util.py', '_ufunc_set_2d',
+  '        elif is_difference:\n            if len(other) == 0:\n                return array\n\n        if array.shape == other.shape:', '        if array.shape == other.shape:', 'I.set-shortcuts', '_ufunc_set_2d')
+B('AU-ndarray-assumed-unique', ['C06'], 'index.py', 'Index._ufunc_set',
+  '            operand = other\n            assume_unique = False', '            operand = other\n            assume_unique = True', 'I.assume-unique', 'Index._ufunc_set')
+B('AU-iterable-assumed-unique', ['C06'], 'index_hierarchy.py', 'IndexHierarchy._ufunc_set',
+  '            operand = iterable_to_array_2d(other) #type: ignore\n            assume_unique = False', '            operand = iterable_to_array_2d(other) #type: ignore\n            assume_unique = True', 'I.assume-unique', 'IndexHierarchy._ufunc_set')
+N('SS-swap-len-test', ['C06'], 'util.py', '_ufunc_set_1d',
+  '    if assume_unique:\n        # can only return arguments', '    if assume_unique is True or assume_unique:\n        # can only return arguments')
+
+# ---------------------------------------------------------------------------------- windows (C13)
+B('W-stop-unfloored', ['C13'], 'container_util.py', 'axis_window_items',
+  'key = slice(idx_left_floored, idx_right_floored + 1)', 'key = slice(idx_left_floored, idx_right + 1)', 'I.window-slice', 'axis_window_items')
+B('W-start-unfloored', ['C13'], 'container_util.py', 'axis_window_items',
+  'key = slice(idx_left_floored, idx_right_floored + 1)', 'key = slice(idx_left, idx_right_floored + 1)', 'I.window-slice', 'axis_window_items')
+B('W-label-wraps', ['C13'], 'container_util.py', 'axis_window_items',
+  '            if idx_label < 0: # do not wrap around\n                raise IndexError()\n', '', 'I.window-slice', 'axis_window_items')
+B('W-axis-crossed', ['C13'], 'container_util.py', 'axis_window_items',
+  'window = source._extract(column_key=key) #type: ignore', 'window = source._extract(row_key=key) #type: ignore', 'I.window-slice', 'axis_window_items')
+B('W-labels-other-axis', ['C13'], 'container_util.py', 'axis_window_items',
+  'labels = source._index if axis == 0 else source._columns #type: ignore', 'labels = source._columns if axis == 0 else source._index #type: ignore', 'I.window-slice', 'axis_window_items')
+N('W-floor-with-max', ['C13'], 'container_util.py', 'axis_window_items',
+  'idx_left_floored = idx_left if idx_left > 0 else 0', 'idx_left_floored = max(idx_left, 0)')
+N('W-rename-flag', ['C13'], 'container_util.py', 'axis_window_items',
+  '        valid = True\n        try:', '        valid = True\n        pass\n        try:')
+
 VARIANTS = V
